@@ -209,7 +209,11 @@ def run_case(d, idx, rec, wild):
     for who, cmd in linkers:
         out = d / f"c{idx}.{who}"
         args = base + ["-o", str(out)]
-        r = run_wild(args, timeout=30, wild=wild) if cmd is None else sh(cmd + args, timeout=30)
+        r = run_wild(args, timeout=120, wild=wild) if cmd is None else sh(cmd + args, timeout=120)
+        if r.timed_out or (cmd is not None and r.rc < 0):
+            # a tiny link that does not finish in 2 minutes (or a crashing reference) says nothing about
+            # C12; it must not be mistaken for "rejected"
+            raise ToolError(f"{who} timed out / crashed on case {rec['name']} v={rec['v_int']:#x} (rc={r.rc})")
         res[who] = {"ok": r.rc == 0 and not r.timed_out, "rc": r.rc, "timed_out": r.timed_out,
                     "err": r.err[-400:], "word": observe(out, r.rc)}
         if out.exists():
